@@ -145,6 +145,25 @@ def generate(rng: Prng, tier: str) -> dict:
         else:
             ops.append({"op": "fault", "kind": fp.choice(["corrupt", "delete", "eio", "truncate"]),
                         "f": fp.below(64), "at": round(fp.random(), 4)})
+    hp = rng.stream("ptrans_map_history")
+    ops2 = []
+    for o in ops:
+        ops2.append(o)
+        if o["op"] == "ptrans":
+            # ONE PopulationTransform object per run, applied again and again - also to its own result (a pipeline
+            # stage used twice): every application transforms the trees it is given
+            o["shared"] = hp.chance(0.6)
+            if hp.chance(0.5):
+                ops2.append({"op": "ptrans", "h": -1, "shared": True})
+                if hp.chance(0.5):
+                    ops2.append({"op": "idx", "h": -1, "i": hp.randint(-3, 3)})
+        elif o["op"] == "map" and not o.get("verbose"):
+            # a parameter sweep: the mapped function reads a module-level parameter the caller changes between two
+            # map calls with the same worker count
+            o["param"] = hp.randint(1, 9)
+            if hp.chance(0.6):
+                ops2.append(dict(o, param=o["param"] + hp.randint(1, 9)))
+    ops = ops2
     # a run always starts with something to talk about
     if not any(o["op"] in ("pop", "pops") for o in ops[:2]):
         ops.insert(0, {"op": "pop", "root": 0} if w.chance(0.7) else {"op": "pops", "roots": list(range(n_roots))})
@@ -175,8 +194,11 @@ def generate(rng: Prng, tier: str) -> dict:
 # functions that cross the (simulated) process boundary must be importable
 
 
+MAP_PARAM = 0  # read by ident_of in the (simulated) worker process; set by the caller before a map call
+
+
 def ident_of(tree):
-    return (tree.source, float(tree.x()[0]), int(len(tree)))
+    return (tree.source, float(tree.x()[0]), int(len(tree)) + 1000 * MAP_PARAM)
 
 
 def _make_mark_transform():
@@ -236,8 +258,8 @@ class Handle:
         if self.kind == "S":
             return self.parent.resolve(self.idxs[j])
         if self.kind == "T":
-            b, k, _ = self.parent.resolve(j)
-            return (b, k, True)
+            b, k, depth = self.parent.resolve(j)
+            return (b, k, int(depth) + 1)  # how many transforms deep
         if self.kind == "W":
             return self.parent.resolve(j)
         if self.kind in ("C", "CP"):
@@ -306,7 +328,7 @@ class Sim:
                 or [int(v) for v in tree.type()] != [1, 3, 3]:
             raise Violation("wrong_tree", op, f"tree {rel} is not the file's tree under the population's read options: "
                             f"pid {[int(v) for v in tree.pid()]}, y {[float(v) for v in tree.y()]}")
-        want_r = 2.0 if transformed else 1.0
+        want_r = 1.0 + int(transformed)  # every application of the marking transform adds one
         if float(tree.r()[0]) != want_r:
             raise Violation("wrong_tree", op, f"tree {rel}: radius {float(tree.r()[0])}, expected {want_r}")
         if j in base.known:
@@ -631,6 +653,8 @@ class Sim:
                 hk = h.kind
                 mark = len(w.open_log)
                 before = simpool._STATE.out_of_order
+                global MAP_PARAM
+                MAP_PARAM = int(op.get("param", 0))
                 try:
                     res = h.obj.map(ident_of, max_worker=op["max_worker"], verbose=op["verbose"])
                     res = list(res)
@@ -651,7 +675,10 @@ class Sim:
                     returned = []
                     for k, r in enumerate(res):
                         base, j, tr = h.resolve(k)
-                        src, x0, _ = r
+                        src, x0, nn = r
+                        if nn != 3 + 1000 * MAP_PARAM:
+                            raise Violation("map_result", "map", f"result {k} is {r!r}: not the function's value for this "
+                                            f"call (the caller's parameter is {MAP_PARAM})")
                         rel = w.rel(src) if src else None
                         rp = rel[len(base.root) + 1:] if rel and rel.startswith(base.root + "/") else None
                         if rp is None or rp not in base.files or x0 != float(base.sig[rp]):
@@ -688,12 +715,20 @@ class Sim:
                     outcome, hk = "ok", "W"
                     w.probe("c19.population_backed_by_a_view")
         elif kind == "ptrans":
-            h = self.pick(op["h"], ("P", "CP"))
+            h = self.pick(op["h"], ("P", "CP", "T") if "shared" in op else ("P", "CP"))
             if h is not None:
                 hk = h.kind
                 mark = len(w.open_log)
+                if op.get("shared"):
+                    if getattr(self, "shared_pt", None) is None:
+                        self.shared_pt = PopulationTransform(_make_mark_transform())
+                    else:
+                        w.probe("c19.population_transform_object_applied_again")
+                    pt = self.shared_pt
+                else:
+                    pt = PopulationTransform(_make_mark_transform())
                 try:
-                    obj = PopulationTransform(_make_mark_transform())(h.obj)
+                    obj = pt(h.obj)
                 except Exception as e:  # noqa: BLE001
                     if self.any_bad_unloaded(h.bases()):
                         for rel in w.open_log[mark:]:
